@@ -176,3 +176,69 @@ def refute_lff(mod, proof, violations, ix, workdir, seed):
 
 
 refuters["MultiLogRecordProcessor_ForceFlush"] = refute_lff
+
+
+# ---------------------------------------------------------------------------------------------
+# "Shutdown ... shuts the exporter down exactly once however many times ... it is requested": the simple processors' Shutdown, one sequential call:
+# the exporter's Shutdown is called exactly when this is the first Shutdown and there is an exporter; the latch is set afterwards in every case
+from . import c03 as _c03
+SD_PRE = r"""
+unsigned long g_exp_shutdown_calls; int g_exp_shutdown_ret; long g_exp_shutdown_timeout;
+static void xc_havoc_ghosts(void) { int r; g_exp_shutdown_calls = 0; g_exp_shutdown_ret = r; g_exp_shutdown_timeout = 0; }
+static bool xc_exporter_Shutdown(long timeout) { g_exp_shutdown_calls++; g_exp_shutdown_timeout = timeout; return g_exp_shutdown_ret != 0; }
+/* std::atomic<bool>::exchange / std::atomic_flag::test_and_set on a plain field (one call at a time) */
+static bool xc_xchg_bool(bool *obj, bool v) { bool old = *obj; *obj = v; return old; }
+"""
+
+
+def _sd_types(em, base, targs, name):
+    if base == "std::unique_ptr" and targs and targs[0].strip().split("::")[-1] in ("SpanExporter", "LogRecordExporter"):
+        return CT("xc_handle")
+    if name.split("::")[-1] == "atomic_flag":
+        return CT("bool")
+    return None
+
+
+def _configure_sd(cfg):
+    common.sdk_trace_boundary(cfg)
+    common.chrono_boundary(cfg)
+    cfg.type_handlers.insert(0, _sd_types)
+    cfg.type_map["std::atomic_flag"] = "bool"
+    cfg.opaque_records["common::SpinLockMutex"] = "xc_opaque"
+    for pre in ("std::atomic::", "std::__atomic_base::", "std::atomic<bool>::"):
+        cfg.ext_methods[pre + "exchange"] = lambda em, recv, args, n: "xc_xchg_bool(&(%s), %s)" % (recv, em.expr(args[0]))
+        cfg.ext_methods[pre + "load"] = lambda em, recv, args, n: recv
+    cfg.ext_methods["std::atomic_flag::test_and_set"] = lambda em, recv, args, n: "xc_xchg_bool(&(%s), 1)" % recv
+    for k in ("std::unique_ptr::operator!=", "std::unique_ptr::operator=="):
+        cfg.ext_methods[k] = (lambda o: (lambda em, recv, args, n: "(%s.id %s 0)" % (recv, o)))(k[-2:])
+    cfg.ext_q["std::operator!="] = lambda em, node, recv, args: "(%s.id != 0)" % em.pexpr_post(args[0])
+    cfg.ext_q["std::operator=="] = lambda em, node, recv, args: "(%s.id == 0)" % em.pexpr_post(args[0])
+    cfg.ext_methods["std::unique_ptr::operator->"] = lambda em, recv, args, n: recv
+    for exp in ("SpanExporter", "LogRecordExporter"):
+        cfg.ext_q[exp + "::Shutdown"] = lambda em, node, recv, args: "xc_exporter_Shutdown(%s)" % em.expr(args[0])
+
+
+def sd_contract(T, latch):
+    L = "self->%s" % latch
+    return {"pre": "__CPROVER_requires(__CPROVER_is_fresh(self, sizeof(%s)) && (%s == 0 || %s == 1))\n" % (T, L, L) +
+            "__CPROVER_assigns(%s, g_exp_shutdown_calls, g_exp_shutdown_timeout)\n" % L +
+            # the exporter is shut down by the first Shutdown only (if there is an exporter), with the caller's timeout; its answer is passed on
+            "__CPROVER_ensures(g_exp_shutdown_calls == ((!__CPROVER_old(%s) && self->exporter_.id != 0) ? 1UL : 0UL))\n" % L +
+            "__CPROVER_ensures(g_exp_shutdown_calls == 1 ==> (g_exp_shutdown_timeout == timeout && (__CPROVER_return_value != 0) == (g_exp_shutdown_ret != 0)))\n"
+            "__CPROVER_ensures(g_exp_shutdown_calls == 0 ==> __CPROVER_return_value)\n"
+            # afterwards the processor is shut down for good: a later Shutdown reaches the exporter no more
+            "__CPROVER_ensures((__CPROVER_old(%s) || self->exporter_.id != 0) ==> %s)\n" % (L, L)}
+
+
+contracts_sd = {"SimpleLogRecordProcessor_Shutdown": sd_contract("SimpleLogRecordProcessor", "is_shutdown_"), "SimpleSpanProcessor_Shutdown": sd_contract("SimpleSpanProcessor", "shutdown_latch_")}
+_psd = [Proof("SimpleLog_Shutdown_once", [("SimpleLogRecordProcessor::Shutdown", 1)], enforce="SimpleLogRecordProcessor_Shutdown", timeout=300, desc="the exporter is shut down by the first Shutdown only"),
+        Proof("SimpleSpan_Shutdown_once", [("SimpleSpanProcessor::Shutdown", 1)], enforce="SimpleSpanProcessor_Shutdown", timeout=300, desc="the same for the span processor")]
+_psd[0].tu = ("tu_simple_log", '#include "%s/sdk/src/logs/simple_log_record_processor.cc"\n' % R.core.REPO)
+_psd[1].tu = ("tu_simple_span", '#include "%s/sdk/include/opentelemetry/sdk/trace/simple_processor.h"\n' % R.core.REPO)
+for _p in _psd:
+    _p.pre_c = SD_PRE
+    _p.post_struct_c = ""
+    _p.configure = _configure_sd
+    _p.own_config = True
+    _p.contracts = contracts_sd
+proofs += _psd
